@@ -33,6 +33,7 @@ var (
 	bytesWebVTTItalicEndTag            = []byte("</i>")
 	bytesWebVTTItalicStartTag          = []byte("<i>")
 	bytesWebVTTTimeBoundariesSeparator = []byte(" " + webvttTimeBoundariesSeparator + " ")
+	webVTTAnnotationEscaper            = strings.NewReplacer("&", "&amp;", ">", "&gt;")
 	webVTTRegexpInlineTimestamp        = regexp.MustCompile(`<((?:\d{2,}:)?\d{2}:\d{2}\.\d{3})>`)
 	webVTTRegexpTag                    = regexp.MustCompile(`(</*\s*([^\.\s]+)(\.[^\s/]*)*\s*([^/]*)\s*/*>)`)
 )
@@ -389,7 +390,7 @@ func parseTextWebVTT(i string, sa *StyleAttributes) (o Line) {
 				if tagName == "v" {
 					if o.VoiceName == "" {
 						// Only get voicename of the first <v> appears in the line
-						o.VoiceName = annotation
+						o.VoiceName = html.UnescapeString(annotation)
 					} else {
 						// TODO: do something with other <v> instead of ignoring
 						log.Printf("astisub: found another voice name %q in %q. Ignore", annotation, i)
@@ -676,7 +677,7 @@ func (s Subtitles) WriteToWebVTT(o io.Writer) (err error) {
 
 func (l Line) webVTTBytes() (c []byte) {
 	if l.VoiceName != "" {
-		c = append(c, []byte("<v "+l.VoiceName+">")...)
+		c = append(c, []byte("<v "+webVTTAnnotationEscaper.Replace(l.VoiceName)+">")...)
 	}
 	for idx := 0; idx < len(l.Items); idx++ {
 		var previous, next *LineItem
